@@ -30,6 +30,12 @@ def cases(thorough=False):
         body = "x" * n
         add("string-literal-length", n, f's := "{body}"\nprint(s->len())\nprint(s == (s + ""))\n', f"{n}\ntrue\n")
         add("printed-line-length", n, f'print("{body}")\nprint("h\\n{body}")\nprint(["{body}"])\n', f"{body}\nh\n{body}\n[\n    {body},\n]\n")
+        if n <= 1025:
+            keys = [f"k{i}" for i in range(n)]
+            first = ", ".join(f'"{k}": 0' for k in keys)
+            second = ", ".join(f'"{k}": 1' for k in keys[::2])
+            add("object-literal-later-entry-wins", n, f'o := {{{first}, {second}}}\nc := 0\nfor [k, v] in o {{\n    c += v\n}}\nprint(c)\nprint(o.k0)\n', f"{len(keys[::2])}\n1\n")
+            add("object-spread-later-entry-wins", n, f'd := {{{first}}}\ne := {{{second}}}\no := {{d.., e..}}\np := {{e.., d..}}\nc := 0\nfor [k, v] in o {{\n    c += v\n}}\nprint(c)\nprint(p.k0)\n', f"{len(keys[::2])}\n0\n")
         add("comment-length", n, f"# {'c' * n}\nprint(1) # {'d' * n}\n", "1\n")
         add("blank-lines", n, "x := 1\n" + "\n" * n + "print(x)\n", "1\n")
         add("statements", n, "x := 0\n" + "x += 1\n" * n + "print(x)\n", f"{n}\n")
